@@ -78,7 +78,7 @@ def gen_cases(tier, seed):
         for c in CORE + EXTRA:
             out.append(("op-next", a + [c]))
             out.append(("op-next", a + [c, ord("5")]))
-    core_bound = 5 if tier == "thorough" else 4
+    core_bound = 4   # the thorough tier streams length 5 (and length 6 over SMALL) separately, see big_families
     for n in range(0, core_bound + 1):
         for t in itertools.product(CORE, repeat=n):
             out.append(("core<=%d" % core_bound, list(t)))
@@ -93,9 +93,6 @@ def gen_cases(tier, seed):
             out.append(("extra-ctx", [t[0], e, t[1]]))
             out.append(("extra-ctx", [e, t[0], t[1]]))
             out.append(("extra-ctx", [t[0], t[1], e]))
-    if tier == "thorough":
-        for t in itertools.product(SMALL, repeat=6):
-            out.append(("small=6", list(t)))
     # blank-line clause: x ++ pad ++ LF LF ++ y
     xs = ["", "5", "a", "5.", "a.5", "\"s\"", "''", "\"\"", "'b'", "@x", "@@ c", "+", "<", ":s", "a`", " ", "\n", "5\n", "5 \n ", "$",
           "\"a\nb\"", "'''q'''", ")", "5..", "_.", "é", "٣"]
@@ -135,6 +132,19 @@ def gen_cases(tier, seed):
                     parts.append([ord(c) for c in rng.choice(["@a", "@@ note\n", "@", "@@", "@@x"])])
             out.append(("random-tokens", [c for p in parts for c in p]))
     return out
+
+
+def big_families(chunk=300000):
+    """thorough tier only: all strings of length 5 over CORE and of length 6 over SMALL, streamed in chunks"""
+    buf = []
+    for fam, alpha, n in (("core=5", CORE, 5), ("small=6", SMALL, 6)):
+        for t in itertools.product(alpha, repeat=n):
+            buf.append((fam, list(t)))
+            if len(buf) >= chunk:
+                yield buf
+                buf = []
+    if buf:
+        yield buf
 
 
 # ---------------------------------------------------- independent property oracle
@@ -392,6 +402,7 @@ def run(tier, seed):
     stats = {"cases": len(cases), "outcomes": {}, "families": {}, "token_types": {}, "model_disagreements": 0,
              "property_failures": 0, "known_hits": 0}
     distinct, samples = set(), []
+    n_eval = 0
     if ok:
         for profile in profiles:
             impl, model, err = run_pair([c for _, c in cases], profile)
@@ -399,15 +410,32 @@ def run(tier, seed):
                 v.tie_failure("correspondence run (%s): %s" % (profile, err))
             if impl is None:
                 continue
+            n_eval += len(cases)
             if profile != "debug":
                 st2 = {"outcomes": {}, "families": {}, "token_types": {}, "model_disagreements": 0, "property_failures": 0, "known_hits": 0}
                 evaluate(v, cases, impl, model, st2, profile, [], set())
                 stats["release"] = {k: st2[k] for k in ("model_disagreements", "property_failures", "known_hits")}
             else:
                 evaluate(v, cases, impl, model, stats, profile, samples, distinct)
+        if tier == "thorough":
+            nd = len(distinct)
+            for chunk in big_families():
+                impl, model, err = run_pair([c for _, c in chunk], "debug")
+                if err:
+                    v.tie_failure("correspondence run (debug, streamed): %s" % err)
+                if impl is None:
+                    break
+                d2 = set()
+                evaluate(v, chunk, impl, model, stats, "debug", samples, d2)
+                nd += len(d2)
+                n_eval += len(chunk)
+                stats["cases"] += len(chunk)
+                if len(v.violations) >= 40 or len(v.tie_failures) > 20:
+                    break
+            stats["distinct_nontrivial_total"] = nd
     v.coverage.update({
-        "evaluations": len(cases) * len(profiles),
-        "distinct_nontrivial": len(distinct),
+        "evaluations": n_eval,
+        "distinct_nontrivial": stats.get("distinct_nontrivial_total", len(distinct)),
         "rule": "all strings up to the stated length over the reduced alphabet (one representative per lexer character class: "
                 "digit, letter, _, :, ., space, tab, LF, CR, FF, both quotes, backslash, @, backtick, operator characters, "
                 "2-byte letter, 2-byte digit, 3-byte symbol), shorter strings over the extended alphabet (NUL, VT, more operators, "
